@@ -446,3 +446,53 @@ def run(ob, tier):
     if ob["which"] == "readd":
         return readd(ob, tier)
     return _run1(ob, tier)
+
+
+# ---------------------------------------------------------------- back-off window arming
+_run2 = run
+
+
+def backoff(ob, tier):
+    """ExponentialBackoffPolicy::fail: a failure reported outside the current back-off window
+    always arms a new one (wait, last_try and the try counter are all rewritten), whatever
+    the counter already is; a failure inside the window changes nothing.  can_try() looks only
+    at (last_try, wait), so a failure that arms nothing lets the next request through at once."""
+    src = open(mirrun.REPO + "/lib/src/retry.rs").read()
+    m = re.search(r"pub struct ExponentialBackoffPolicy \{(.*?)\n\}", src, re.S)
+    fields = re.findall(r"^\s*(?:pub(?:\([\w:]+\))? )?(\w+):", m.group(1), re.M)
+    fn = mirrun.get_fn("lib", "::fail", sig="&mut ExponentialBackoffPolicy")
+    ex = engine.Executor(fn)
+    ev = ex.run()
+    q = Q(ex.ctx)
+    res = {"paths": ex.stats["nodes"], "functions": [fn.name]}
+    inside = [e for e in ev if e.kind == "call" and re.search(r"<Duration as PartialOrd>::(lt|le|gt|ge)$", e.callee)]
+    rets = [e for e in ev if e.kind == "return"]
+    writes = {f: [e for e in ev if e.kind == "write" and e.place == "(*_1).%d" % fields.index(f)] for f in ("wait", "last_try", "current_tries")}
+    if len(inside) != 1 or not inside[0].callee.endswith("::lt") or len(rets) != 1:
+        return dict(res, verdict="inconclusive", why="shape: window tests=%s" % [e.callee.split("::")[-1] for e in inside])
+    el = [e for e in ev if e.kind == "call" and e.callee.endswith("Instant::elapsed")]
+    problems = []
+    # the window test is `last_try.elapsed() < wait`
+    a0 = inside[0].args[0]["val"].ref
+    if not el or a0 != el[0].dest or inside[0].args[1]["val"].ref != "(*_1).%d" % fields.index("wait"):
+        problems.append("the back-off test is not `last_try.elapsed() < wait`")
+    L = inside[0].result.term
+    for f, ws in writes.items():
+        if q([rets[0].guard, engine.NOT(engine.AND(inside[0].guard, L))] + [engine.NOT(w.guard) for w in ws])[0] != "unsat":
+            problems.append("a failure outside the back-off window can return without rewriting %s (no new window is armed: the backend is retried at once)" % f)
+        for w in ws:
+            if q([w.guard, inside[0].guard, L])[0] != "unsat":
+                problems.append("%s is rewritten by a failure inside the window" % f)
+    wit = [q([rets[0].guard, inside[0].guard, L])[0], q([rets[0].guard, inside[0].guard, engine.NOT(L)])[0]]
+    res["witness"] = "inside / outside the window both reachable: %s" % wit
+    res["witness_ok"] = all(w == "sat" for w in wit)
+    res["queries"], res["solver_s"] = q.n, round(q.secs, 2)
+    if problems:
+        return dict(res, verdict="counterexample", text="; ".join(problems), model={"problems": problems}, replay={"reproduced": False, "why": "no native replay"})
+    return dict(res, verdict="holds")
+
+
+def run(ob, tier):
+    if ob["which"] == "backoff":
+        return backoff(ob, tier)
+    return _run2(ob, tier)
